@@ -93,3 +93,20 @@ def indentation_program(rnd) -> str:
 # identifiers: characters that are XID_Continue but not matched by the regex class \\w, plus ordinary ones
 ID_ODD = ["a\u00b7b", "x\u0301", "a\u0387", "e\u20dd", "A\u1369", "v\ufe0f", "n\U000e0100", "k\u19da", "\u2118x", "\u212ea", "a\u0300\u0301", "\u1885a"]
 ID_OK = ["\u00e9", "na\u00efve", "\u03c0", "\u540d\u524d", "\u00df1", "_\u00e9", "x\u00b2" , "\uff41", "\u00aa", "\u2160"]
+
+
+# ---- adjacent string-literal pieces (implicit concatenation): every ordered pair / triple of kinds ----------------
+CONCAT_PIECES_PY = ["'a'", "b'b'", "f'{a}'", "f'{a}t'", "f't{a}'", "f't'", "u'u'", "r'\\d'", "rb'x'", "''", "f''", "b''", '"""m\nn"""', "f'''{a}\nk'''"]
+CONCAT_PIECES_XONSH = ["p'p'", "pf'{a}'", "pr'q'", "pf't{a}t'"]
+
+
+def string_concat_matrix(xonsh: bool = False, upto: int = 3):
+    """all sequences of 2..upto adjacent pieces, joined by one blank"""
+    import itertools
+
+    pool = CONCAT_PIECES_PY + (CONCAT_PIECES_XONSH if xonsh else [])
+    for n in range(2, upto + 1):
+        for combo in itertools.product(pool, repeat=n):
+            if xonsh and n == 3 and not any(c in CONCAT_PIECES_XONSH for c in combo):
+                continue  # the pure-Python triples are already in the non-xonsh matrix
+            yield " ".join(combo)
